@@ -244,7 +244,7 @@ func (o *OperationNormalizer) setupOperationWalkers() {
 	}
 
 	directivesIncludeSkip := astvisitor.NewWalkerWithID(8, "DirectivesIncludeSkip")
-	preventFragmentCycles(&directivesIncludeSkip)
+	preventFragmentCycles(&directivesIncludeSkip).definitionsWillBeRemoved = o.options.removeFragmentDefinitions
 	directiveIncludeSkipKeepNodes(&directivesIncludeSkip, o.options.ignoreSkipInclude)
 
 	if len(o.options.prevalidationRules) > 0 {
@@ -513,6 +513,8 @@ type fragmentCycleVisitor struct {
 	operation, definition *ast.Document
 	currentFragmentRef    int           // current fragment ref
 	spreadsInFragments    map[int][]int // fragment ref -> spread refs
+
+	definitionsWillBeRemoved bool // the fragment definitions do not reach validation
 }
 
 func (f *fragmentCycleVisitor) LeaveDocument(operation, _ *ast.Document) {
@@ -578,6 +580,13 @@ func (f *fragmentCycleVisitor) LeaveFragmentDefinition(ref int) {
 }
 
 func (f *fragmentCycleVisitor) EnterFragmentDefinition(ref int) {
+	// spreads are resolved by name (the first definition wins); when the definitions are removed afterwards,
+	// validation cannot see a second definition of a name anymore, so it has to be reported here
+	name := f.operation.FragmentDefinitionNameBytes(ref)
+	if first, _ := f.operation.FragmentDefinitionRef(name); f.definitionsWillBeRemoved && first != ref {
+		f.StopWithExternalErr(operationreport.ErrFragmentDefinitionMustBeUnique(name))
+		return
+	}
 	f.currentFragmentRef = ref
 }
 
